@@ -33,7 +33,7 @@ P = {
  "C13": (True, "seq", "runtime monitor of the sweep rule at every CleanUp (entries older than one tick must be gone and reported as expired) over generated sequences, writer-parked-in-NowNano schedules, reader-versus-sweep schedules (reader parked in the clock, released at yield points inside the maintenance pass) and deadline-extension scenarios; size-eviction variant of the reader schedules; structural audit after CleanUp (every table node has exactly one timer)",
    "Held on the explored sequences: TTLs from ns to years, clock jumps up to many wheel revolutions; entries whose deadline was moved backwards are exempt (the property's proviso).",
    "Tick = 2^30 ns; sequential schedules plus writer/maintenance clock-parked schedules.", "4/C13"),
- "C19": (True, "seq", "round-trip differential monitor: source cache driven by a generated sequence, SaveCacheTo, clock offset, LoadCacheFrom into an empty cache with equal/larger/smaller maximum",
+ "C19": (True, "seq", "round-trip differential monitor: source cache driven by a generated sequence, SaveCacheTo, clock offset, LoadCacheFrom into an empty cache with equal/larger/smaller maximum; a third of the round trips through SaveCacheToFile / LoadCacheFromFile (new directory, or over an older and larger snapshot)",
    "Held on the explored round trips: loaded entries are a subset of the saved unexpired ones with identical value, weight and ExpiresAtNano (RefreshableAtNano identical when in the future, due otherwise); everything is loaded when it fits.",
    "Calculators and weigher are pure functions of key/value so source and target agree; gob encoding itself is trusted.", "4/C19"),
  "C20": (True, "seq", "differential runtime monitor: Stats() snapshot compared with model tallies after every operation; counters sampled for monotonicity under concurrency",
@@ -66,7 +66,7 @@ P = {
  "C16": (True, "comp", "component stress of the real MPSC write buffer: exactly-once, per-producer order, justified refusals, Size <= capacity, sequential capacity sweep over (initial,max) pairs; race detector (+ asan); cache-level scenarios: consumption order with a stalled executor and a full buffer, a refused-then-retried offer after the buffer was filled from an iteration body",
    "Held on the explored trials with 1-16 producers, delays between index CAS and element publication and inside resize.",
    "A refusal is judged with the sound bound (pushes begun before it returned minus pops completed before it was called >= capacity).", "4/C16"),
- "C17": (True, "comp", "component stress of the real striped ring buffer: delivered is a subset of recorded, at most once, bounded length, complete after quiescence; cache-level use-site scenario (readers + InvalidateAll/iterations/SetMaximum, buffer empty after a quiescent CleanUp); race detector (+ asan)",
+ "C17": (True, "comp", "component stress of the real striped ring buffer: delivered is a subset of recorded, at most once, bounded length, complete after quiescence; cache-level use-site scenario (readers + InvalidateAll/iterations/SetMaximum, buffer empty after a quiescent CleanUp); race detector (+ asan); bursts on new buffers (recorders released at the same instant, yield point striped.slotEmpty)",
    "Held on the explored trials with many recorders against one drainer and delays between tail CAS and slot publication / under the busy flag; the cache-level half (results unchanged when reads are dropped) is covered by the sequential engine, whose read buffer saturates between maintenance runs.",
    "Stripe selection uses the runtime's fastrand: which stripes collide is not controlled.", "4/C17"),
  "C18": (True, "comp", "reference-count monitor on thousands of real sketch instances (fresh hash seed each) admission-rule check with injected random words, and eviction passes of a real policy followed in lock step (every candidate-versus-victim decision judged)",
